@@ -1,6 +1,6 @@
 ---- MODULE WalkerAmd64 ----
 (***************************************************************************)
-(* The x86-64 (non-Windows) stack walker: minidump-unwind/src/amd64.rs       *)
+(* The x86-64 stack walker (Os = "linux" or "windows"): minidump-unwind/src/amd64.rs       *)
 (* get_caller_frame + lib.rs walk_stack, over a small symbolic machine.      *)
 (* Techniques are tried in priority order: STACK CFI, frame pointer, stack   *)
 (* scan; the chosen caller must have an instruction pointer >= 4096 and a    *)
@@ -21,7 +21,7 @@
 (*   M2 (no symbols)  0x500000..0x500fff                                     *)
 (***************************************************************************)
 EXTENDS Naturals, Integers, Sequences, TLC, FiniteSets, Json
-CONSTANTS NW, Mode, MaxDepth, Pads
+CONSTANTS NW, Mode, MaxDepth, Pads, Os
 Ptr == 8
 Base == 65536           \* 0x10000
 StackEnd == Base + NW * Ptr
@@ -76,16 +76,25 @@ ByCfi(f) ==
                     THEN [ip |-> ra, sp |-> cfa, bp |-> Rd(cfa - 16), valid |-> {"rip","rsp","rbp"}, trust |-> "cfi"]
                     ELSE [ip |-> ra, sp |-> cfa, bp |-> f.bp, valid |-> {"rip","rsp"}, trust |-> "cfi"]  \* failed register rule => cleared
                ELSE [ip |-> ra, sp |-> cfa, bp |-> f.bp, valid |-> {"rip","rsp"} \cup (f.valid \cap {"rbp"}), trust |-> "cfi"]
+\* Frame pointer.  On Windows x64 the frame register may point up to 240 bytes into the frame, in 16-byte steps, so the
+\* candidate record {saved rbp, return address} is looked for at rbp + 16k, k = 0..15, and the first k whose record passes
+\* the sanity tests wins; elsewhere only k = 0 is tried.  An unreadable probe ends the technique (not just the candidate).
+MaxFpScan == IF Os = "windows" THEN 15 ELSE 0
+RECURSIVE FpTry(_,_)
+FpTry(f, k) ==
+  IF k > MaxFpScan THEN None
+  ELSE LET fr == f.bp + 16 * k IN
+       IF ~(Readable(fr + 8) /\ Readable(fr)) THEN None
+       ELSE LET cip == Rd(fr + 8)  cbp == Rd(fr)  csp == fr + 16 IN
+            IF csp <= f.bp \/ cbp < csp THEN FpTry(f, k + 1)
+            ELSE IF ~Readable(cbp) THEN None
+            ELSE IF NonCanon(cip) THEN FpTry(f, k + 1)
+            ELSE IF csp <= f.sp \/ ~Readable(csp) THEN FpTry(f, k + 1)
+            ELSE [ip |-> cip, sp |-> csp, bp |-> cbp, valid |-> {"rip","rsp","rbp"}, trust |-> "frame_pointer"]
 ByFp(f) ==
   IF ~({"rbp","rsp"} \subseteq f.valid) THEN None
   ELSE IF f.bp >= MaxA - 16 THEN None
-  ELSE IF ~(Readable(f.bp + 8) /\ Readable(f.bp)) THEN None
-  ELSE LET cip == Rd(f.bp + 8)  cbp == Rd(f.bp)  csp == f.bp + 16 IN
-       IF cbp < csp THEN None
-       ELSE IF ~Readable(cbp) THEN None
-       ELSE IF NonCanon(cip) THEN None
-       ELSE IF csp <= f.sp \/ ~Readable(csp) THEN None
-       ELSE [ip |-> cip, sp |-> csp, bp |-> cbp, valid |-> {"rip","rsp","rbp"}, trust |-> "frame_pointer"]
+  ELSE FpTry(f, 0)
 RECURSIVE ScanFrom(_,_,_)
 ScanFrom(f, i, range) ==
   IF i >= range THEN None
@@ -150,21 +159,22 @@ Lay(ch, k, sp, words, fr) ==        \* words: function address -> value (partial
            nextIp == IF k < Len(ch) THEN IpOf(ch[k+1].tech) ELSE A4 + 8      \* the oldest caller: in M2; above it only zero words
            nextNeedsFp == k < Len(ch) /\ ch[k+1].tech = "fp" IN
        CASE c.tech = "fp" ->
-              \* rbp = sp + 8*pad ; [rbp] = caller's rbp ; [rbp+8] = return address ; caller sp = rbp + 16
-              LET bp == sp + Ptr * c.pad
-                  csp == bp + 16
-                  cbp == IF nextNeedsFp THEN csp + Ptr * ch[k+1].pad ELSE csp      \* a readable, sane value >= csp
-              IN Lay(ch, k + 1, csp, words \cup {<<bp, cbp>>, <<bp + 8, nextIp>>}, Append(fr, [ip |-> nextIp, sp |-> csp, trust |-> "frame_pointer", bp |-> bp]))
+              \* the record {caller's rbp, return address} sits at rec; caller sp = rec + 16.
+              \* linux: rbp = rec = sp + 8*pad.  windows: rbp = sp points 16*pad bytes below the record (into the locals)
+              LET rec == IF Os = "windows" THEN sp + 16 * c.pad ELSE sp + Ptr * c.pad
+                  csp == rec + 16
+                  cbp == IF nextNeedsFp THEN (IF Os = "windows" THEN csp ELSE csp + Ptr * ch[k+1].pad) ELSE csp      \* a readable, sane value >= csp
+              IN Lay(ch, k + 1, csp, words \cup {<<rec, cbp>>, <<rec + 8, nextIp>>}, Append(fr, [ip |-> nextIp, sp |-> csp, trust |-> "frame_pointer", bp |-> rec]))
          [] c.tech = "cfi" ->
               \* rule std: cfa = sp + 16 ; ra at cfa-8 ; saved rbp at cfa-16
               LET csp == sp + 16
-                  cbp == IF nextNeedsFp THEN csp + Ptr * ch[k+1].pad ELSE 0
+                  cbp == IF nextNeedsFp THEN (IF Os = "windows" THEN csp ELSE csp + Ptr * ch[k+1].pad) ELSE 0
               IN Lay(ch, k + 1, csp, words \cup {<<sp, cbp>>, <<sp + 8, nextIp>>}, Append(fr, [ip |-> nextIp, sp |-> csp, trust |-> "cfi", bp |-> 0]))
          [] c.tech = "scan" ->
               \* return address after pad filler words ; caller sp just above it
               LET ra == sp + Ptr * c.pad  csp == ra + Ptr
               IN Lay(ch, k + 1, csp, words \cup {<<ra, nextIp>>}, Append(fr, [ip |-> nextIp, sp |-> csp, trust |-> "scan", bp |-> 0]))
-Built(ch) == LET bp0 == IF ch[1].tech = "fp" THEN Base + Ptr * ch[1].pad ELSE 0
+Built(ch) == LET bp0 == IF ch[1].tech = "fp" THEN (IF Os = "windows" THEN Base ELSE Base + Ptr * ch[1].pad) ELSE 0
                  l == Lay(ch, 1, Base, {}, <<>>) IN
    [words |-> l.words, frames |-> l.frames, bp0 |-> bp0, fits |-> l.endsp <= StackEnd]
 MemOf(ws) == [i \in 1..NW |-> LET a == Base + (i - 1) * Ptr  S == {w \in ws : w[1] = a} IN IF S = {} THEN 0 ELSE (CHOOSE w \in S : TRUE)[2]]
